@@ -312,6 +312,17 @@ def F16():
     return [] if w["b"] == "vo" else ["rectifier at 10.6 V with vo limit [0, 5]: Warnings %r in phase a, %r in phase b" % (w["a"], w["b"])]
 
 
+def F17():
+    """C14/C12: a PMux input listed by name and by rail is accepted twice; the saved file cannot be loaded"""
+    s = System("t", Source("S0", vo=12.0), rail="sys")
+    s.add_source(Source("S1", vo=5.0))
+    try:
+        s.add_comp(["S0", "sys", "S1"], comp=PMux("m", rs=[0.1, 0.2, 0.3]))
+    except ValueError:
+        return []
+    return ["input list %r over graph links %r" % (s._g.attrs["pnames"][2], sorted(s._g.edge_list()))]
+
+
 ALL = {k: v for k, v in globals().items() if k[0] == "F" and k[1:].isdigit()}
 if __name__ == "__main__":
     rc = 0
